@@ -8,6 +8,7 @@ package main
 // handler: the instate upgrade goes through).
 
 import (
+	tokenstypes "github.com/KiraCore/sekai/x/tokens/types"
 	"fmt"
 	"strings"
 	"time"
@@ -313,4 +314,84 @@ func (e *upgEp) lifecycle(instate, skip bool, dt time.Duration) bool {
 	}
 	r.Count("upgrade:lifecycle-not-enacted")
 	return false
+}
+
+// c06StakeCaps: governance moves the staking reward caps of registered tokens with several proposals that are voted on
+// at the same time. Each one is acceptable when it is submitted (the dry run sees the registry of that moment); enacted
+// one after the other they may add up to more than 100 % - the later enactment has to fail WITHOUT harm: the block
+// inflation of the following blocks is minted through the same token registry.
+func c06StakeCaps(r *Rec) {
+	n := 6
+	if r.Tier == "thorough" {
+		n = 40
+	}
+	for ep := 0; ep < n; ep++ {
+		w := NewWorld(WorldOpts{NAcc: 6, NVal: 3, SudoAccs: []int{5}})
+		ms := govkeeper.NewMsgServerImpl(w.app.CustomGovKeeper)
+		label := fmt.Sprintf("stake caps by concurrent proposals %d", ep)
+		r.Mark(label)
+		type tk struct {
+			denom string
+			cap   sdk.Dec
+			stake bool
+		}
+		// defaults: ukex 0.50, ubtc 0.25 (staking on), xeth 0.10 (staking off): 0.15 of room
+		room := []string{"0.15", "0.15", "0.16", "0.14", "0.10", "0.30"}
+		a := sdk.MustNewDecFromStr(room[r.Rng.Intn(len(room))])
+		b := sdk.MustNewDecFromStr(room[r.Rng.Intn(len(room))])
+		toks := []tk{{"ubtc", sdk.NewDecWithPrec(25, 2).Add(a), r.Rng.Intn(2) == 0}, {"xeth", sdk.NewDecWithPrec(10, 2).Add(b), r.Rng.Intn(3) == 0}}
+		if ep%3 == 2 {
+			toks = append(toks, tk{fmt.Sprintf("pt%d", ep), sdk.MustNewDecFromStr(room[r.Rng.Intn(len(room))]), r.Rng.Intn(2) == 0})
+		}
+		submitted := 0
+		br := w.Block(nil, BlockOpts{Mid: func(ctx sdk.Context) {
+			for _, t := range toks {
+				content := tokenstypes.NewUpsertTokenInfosProposal(t.denom, "adr20", sdk.NewDecWithPrec(1, 1), true, sdk.ZeroInt(), sdk.ZeroInt(), t.cap, sdk.OneInt(), t.stake, false,
+					"SYM", "Name", "", 6, "by proposal", "", "", 0, sdk.ZeroInt(), "", false, "", "")
+				m, err := govtypes.NewMsgSubmitProposal(w.addrs[5], "t", "d", content)
+				if err != nil {
+					continue
+				}
+				err = withCache(ctx, func(cc sdk.Context) error {
+					res, e := ms.SubmitProposal(sdk.WrapSDKContext(cc), m)
+					if e == nil {
+						_, e = ms.VoteProposal(sdk.WrapSDKContext(cc), govtypes.NewMsgVoteProposal(res.ProposalID, w.addrs[5], govtypes.OptionYes, sdk.ZeroDec()))
+					}
+					return e
+				})
+				if err == nil {
+					submitted++
+				}
+				r.Count(fmt.Sprintf("stake-caps:submit:%v", err == nil))
+			}
+		}})
+		if br.Panicked != nil {
+			r.Fail("C06/stake-caps/panic", fmt.Sprintf("%s: submission block panicked in %s: %v", label, br.Phase, br.Panicked), nil)
+			continue
+		}
+		w.ApplyUpdates(br.Updates)
+		halted := false
+		for i := 0; i < 30 && !halted; i++ {
+			br := w.Block(nil, BlockOpts{Dt: 60 * time.Second})
+			if br.Panicked != nil {
+				halted = true
+				total := sdk.ZeroDec()
+				for _, t := range w.app.TokensKeeper.GetAllTokenInfos(w.ReadCtx()) {
+					total = total.Add(t.StakeCap)
+				}
+				r.Fail("C06/stake-caps/chain-halted", fmt.Sprintf("%s: after the enactment of %d concurrently voted UpsertTokenInfos proposals (%+v) block %d panicked in %s: %.200v (stake caps on record add up to %s)", label, submitted, toks, w.height, br.Phase, br.Panicked, total), nil)
+				break
+			}
+			w.ApplyUpdates(br.Updates)
+		}
+		total := sdk.ZeroDec()
+		for _, t := range w.app.TokensKeeper.GetAllTokenInfos(w.ReadCtx()) {
+			total = total.Add(t.StakeCap)
+		}
+		r.Count(fmt.Sprintf("stake-caps:submitted=%d:total<=1:%v", submitted, !total.GT(sdk.OneDec())))
+		r.Case(label, submitted >= 2)
+		if !halted && total.GT(sdk.OneDec()) {
+			r.Fail("C06/stake-caps/registry-above-100-percent", fmt.Sprintf("%s: the stake caps on record add up to %s: the next mint of a staking token fails and the distributor's BeginBlocker panics", label, total), nil)
+		}
+	}
 }
